@@ -39,7 +39,11 @@ impl Lift for MappingOffset {
             let (key, slot, offset) = match (left.data(), right.data()) {
                 (RSVD::MappingIndex { key, slot, .. }, RSVD::KnownData { value })
                 | (RSVD::KnownData { value }, RSVD::MappingIndex { key, slot, .. }) => {
-                    (key, slot, value.into())
+                    // The projection is an offset in slots into the mapping's value type, so
+                    // a constant that is too large to be one is not treated as a projection.
+                    // This also keeps the bit offsets computed from it well within `usize`.
+                    let offset = u32::try_from(value.value_le()).ok()?;
+                    (key, slot, offset as usize)
                 }
                 _ => return None,
             };
